@@ -30,7 +30,7 @@ def run(chk, tier):
 def r_absint(chk, P, tier):
     res = e1.run_engine(P, tier, extra_roots=ROOTS)
     e1.report(chk, P, res, "ABSINT.tz_info", "every panic-capable site of the TZif/TZ-rule readers and lookups is discharged or justified (input at full range)",
-              fn_filter=lambda fn: "tz_info::" in fn or "local::inner::" in fn, floor=180)
+              fn_filter=lambda fn: "tz_info::" in fn or "local::inner::" in fn or fn.startswith("<offset::local::Local as offset::TimeZone>::"), floor=180)
 
 
 def r_block_order(chk, P, tier):
